@@ -87,6 +87,17 @@ def rule_path(ctx, R):
     # the hook itself: in PNC the append call is guarded only by is_write_command/aof presence
     pb = ctx.prog.need(PNC)
     ap = [i for i, t in pb.calls() if callee(t) == APPEND]
+    if not ap:
+        # the hook in adaptor form: `self.aof_engine.as_ref().filter(|_| is_write).and_then(|aof|
+        # aof.append_command(parts).err())` -- the adaptor call stands for the append (its
+        # closure runs exactly when the engine is there and the filter let it through)
+        for i, t in pb.calls():
+            if t.get("clos") and re.search(r"Option::<.*>::(and_then|map|inspect|is_some_and|map_or|map_or_else)(::<.*>)?$", t["f"] or "") and t["a"] and not op_is_const(t["a"][0]):
+                if any(callee(tt) == APPEND for c in t["clos"] if c in ctx.prog.bodies for _, _, tt in shared.deep_calls(ctx, ctx.prog.bodies[c])):
+                    P = prov.operand_origins(pb, t["a"][0], deep=True)
+                    if any(f.endswith("Server.aof_engine") for f in P.fields):
+                        ap.append(i)
+                        R.note("append hook in adaptor form at %s" % pb.loc(i))
     R.floor("append_hooks", len(ap))
     iw = [i for i, t in pb.calls() if callee(t) == SERVER + "is_write_command"]
     for a in ap:
@@ -341,7 +352,8 @@ def rule_appended_runs(ctx, R):
     process_normal_command itself without a handler having run; such gates belong in front of the
     append (the refused write would be applied at replay)."""
     b = ctx.prog.need(PNC)
-    apps = [i for i, t in b.calls() if callee(t) == APPEND or APPEND in ctx.cg.reach([callee(t)]) and callee(t).startswith(SERVER)]
+    apps = [i for i, t in b.calls() if callee(t) == APPEND or APPEND in ctx.cg.reach([callee(t)]) and callee(t).startswith(SERVER)
+            or (t.get("clos") and APPEND in ctx.cg.reach(list(t["clos"])))]
     if not apps:
         R.broken.append("no append hook found in process_normal_command"); return
     after = set()
